@@ -52,9 +52,23 @@ def c13(tier):
                       "input": []})
     refs = pool.simple_requests(hv, [{"op": "ref", "id": c["id"], "prog": c["prog"], "w": c["w"], "input": c["input"],
                                       "maxSteps": 5000, "maxEv": 250} for c in cases])
+    # a larger compile-only population for the totality clause (no executions, one level each)
+    # (the same seeded population as C01, so whatever reaches the optimiser there reaches it here)
+    extra_per = {"rnd": 3000, "S": 6000, "M": 2000, "N": 500, "L": 1500, "G": 1500} if tier == "quick" else \
+                {"rnd": 60000, "S": 150000, "M": 40000, "N": 10000, "L": 40000, "G": 30000}
+    extra = population(hv, tier, sd, list(extra_per), extra_per)
+    for i, c in enumerate(extra):
+        c["id"] = "x" + c["id"]
+        c["compile_only"] = 1 + (i % 3 if tier == "quick" else i % 3)
+    cases += extra
+    refs += [None] * len(extra)
     reqs = []
     for c, r in zip(cases, refs):
         halts = 1 if (r and r.get("class") == "halts") else 0
+        if c.get("compile_only"):
+            reqs.append({"op": "compile", "id": "%s|%d|%d" % (c["id"], c["w"], c["compile_only"]), "prog": c["prog"],
+                         "w": c["w"], "level": c["compile_only"], "input": [], "execute": 0})
+            continue
         for level in ((1, 2, 3) if c["pop"] != "nest" else (0, 1, 2, 3)):
             reqs.append({"op": "compile", "id": "%s|%d|%d" % (c["id"], c["w"], level), "prog": c["prog"], "w": c["w"],
                          "level": level, "input": c["input"], "execute": halts})
@@ -81,17 +95,20 @@ def c13(tier):
             if dt > 5.0:
                 slow.append((rq["id"], round(dt, 1)))
             if "artifacts" not in a:
-                g.append({"proc": p, "ev": "failed", "key": rq["id"], "digest": a.get("died", "?"), "exe": "", "nth": 0})
+                g.append({"proc": p, "ev": "failed", "key": rq["id"], "digest": a.get("died", "?"), "exe": "", "nth": 0,
+                          "size": 0})
                 continue
             for kind, ev, digest in a["artifacts"]:
-                g.append({"proc": p, "ev": ev, "key": kind + "|" + rq["id"], "digest": digest, "exe": "", "nth": 0})
+                g.append({"proc": p, "ev": ev, "key": kind + "|" + rq["id"], "digest": digest, "exe": "", "nth": 0,
+                          "size": 0})
                 nobs += 1
             for backend, nth, digest in a["executions"]:
-                g.append({"proc": p, "ev": "execute", "key": "", "digest": digest,
+                g.append({"proc": p, "ev": "execute", "key": "", "digest": digest, "size": 0,
                           "exe": "%s|%s|%d" % (backend, rq["id"], id(rq) % 1000003), "nth": nth})
                 # all backends and all processes must also agree on the first execution's log
                 if nth == 1:
-                    g.append({"proc": p, "ev": "artifact", "key": "exec|" + rq["id"], "digest": digest, "exe": "", "nth": 0})
+                    g.append({"proc": p, "ev": "artifact", "key": "exec|" + rq["id"], "digest": digest, "exe": "",
+                              "nth": 0, "size": 0})
                 nobs += 1
     traces = []
     for gid, evs in groups.items():
@@ -119,18 +136,57 @@ def c13(tier):
         rep.sample({"id": traces[0]["id"], "events": traces[0]["events"][:6]})
     if slow:
         rep.info("compile requests slower than 5 s (outside the model, not an alarm): %s" % slow[:10])
-    # coarse guard for the complexity clause: scaling families
-    fam = []
-    for n in (40, 80, 160):
-        fam.append((n, "+" + "[->+<]>" * n + "."))
-    times = []
-    for n, prog in fam:
-        t0 = time.time()
-        pool.simple_requests(hv, [{"op": "compile", "id": "fam%d" % n, "prog": prog, "w": 8, "level": 3, "input": [],
-                                   "execute": 0}], nworkers=1, timeout=300.0)
-        times.append(round(time.time() - t0, 3))
-    rep.coverage["scaling_guard_outside_model"] = {"family": "+[->+<]> x n .", "n": [n for n, _ in fam],
-                                                   "seconds": times}
+    # complexity clause: scaling families (source length linear in k), sizes of the printed artifacts
+    SQ = "[->+>+<<]>[->[-<<+>>>+<]>[-<+>]<<]>[-]<<"
+    families = {
+        "square-chain": lambda k: "," + SQ * k + ".",
+        "move-chain": lambda k: "," + "[->+<]>" * k + ".",
+        "scale-chain": lambda k: "," + "[->+++<]>[-<+>]<" * k + ".",
+        "add-chain": lambda k: ",>,<" + "[->+>+<<]>>[-<<+>>]<" * k + ">.",
+        "nest": lambda k: "+" + "[>+" * k + "]" * k,
+        "io-chain": lambda k: ",.+" * k,
+        "mul-acc-chain": lambda k: ",>,>,<<" + "[->[->>+>+<<<]>>>[-<<<+>>>]<<<<]>>[-<<+>>]<<" * k + ".",
+    }
+    ks = list(range(8, 15)) if tier == "quick" else list(range(8, 19))
+    sreqs = []
+    for fam, mk in families.items():
+        for k in ks:
+            for kind in ("ir", "bc"):
+                sreqs.append({"op": "render", "id": "%s|%s|%d" % (fam, kind, k), "kind": kind, "prog": mk(k), "w": 8,
+                              "level": 3})
+    sans = pool.simple_requests(hv, sreqs, timeout=300.0)
+    fam_events = {}
+    table = {}
+    for rq, a in zip(sreqs, sans):
+        fam, kind, k = rq["id"].split("|")
+        key = fam + "|" + kind
+        if not a or "text" not in a:
+            fam_events.setdefault(key, []).append({"proc": 0, "ev": "failed", "key": rq["id"],
+                                                   "digest": (a or {}).get("died", "hung"), "exe": "", "nth": 0,
+                                                   "size": 0})
+            continue
+        fam_events.setdefault(key, []).append({"proc": 0, "ev": "size", "key": key, "digest": "", "exe": "",
+                                               "nth": int(k), "size": len(a["text"])})
+        table.setdefault(key, []).append(len(a["text"]))
+    straces = [{"id": "scale:" + key, "events": evs} for key, evs in fam_events.items()]
+    for t in traces:
+        for e in t["events"]:
+            e.setdefault("size", 0)
+    spath = os.path.join(d, "scaling.ndjson")
+    tlc.write_ndjson(spath, straces)
+    res = tlc.run_tlc("Compile", env={"CASES": spath}, workers=4, timeout=600)
+    rep.add_tlc(res)
+    sverd = {r["id"]: r for r in res.records if "verdict" in r}
+    rep.coverage["scaling_families"] = {"members_k": ks, "printed_size_by_family": table}
+    for st in straces:
+        v = sverd.get(st["id"])
+        if v is None:
+            raise ToolError("no verdict for scaling family " + st["id"])
+        if v["verdict"] != "accepted":
+            fam, kind = st["id"][6:].split("|")
+            rep.violation({"family": fam, "artifact": kind, "level": 3, "w": 8, "member": families[fam](ks[0]),
+                           "k": ks, "tlc": v},
+                          "scaling family %s (%s): %s" % (fam, kind, v["why"][:300]))
     rep.coverage["rule"] = ("for every (program, width, level 1-3) of the populations plus nesting families of depth "
                             "50..300: printed IR, bytecode (2 registers), JIT bytecode, machine code (three modes), "
                             "create results and the event logs of three consecutive executions of each executor are "
@@ -139,8 +195,9 @@ def c13(tier):
                             "the n-th execution of an executor equals the first" % nproc)
     rep.assumptions.append("worker processes run with address-space randomisation off (setarch -R): machine code "
                            "embeds the absolute addresses of the three runtime shims")
-    rep.assumptions.append("the 'no super-polynomial blow-up' clause is not decided by the model; only a coarse "
-                           "scaling guard is reported")
+    rep.assumptions.append("the 'no super-polynomial blow-up' clause is decided on seven scaling families only, by "
+                           "the growth ratio of the printed artifact (>= 1.7 between all consecutive members k >= 8 = "
+                           "exponential); compile time is not measured")
     return rep.finish()
 
 
